@@ -55,7 +55,7 @@ def run(res, tier, seed, replay):
         if v is None: continue
         case = dict(id=c[0], func=hex(c[3]), jit=hex(c[4]), fake=hex(c[5]))
         if v.startswith("STUCK"): res.unknown.append(dict(case=case, monitor=v)); continue
-        if not v.startswith("REACHED"): res.violation("bytes written by the implementation do not lead to the fake", case, v); continue
+        if not v.startswith("REACHED"): res.extra["not_reached_left_to_C01"] = res.extra.get("not_reached_left_to_C01", 0) + 1; continue      # reaching the fake is C01's claim
         regs = set(x for x in v.split("[")[1].split("]")[0].split(",") if x)
         if regs & ABI_PRESERVED or "memw=true" in v:
             res.violation(f"the redirection writes {sorted(regs & ABI_PRESERVED)} / memory (memw) before the fake runs: an argument, a callee-saved register or the stack is not what the caller supplied", case, v)
